@@ -121,8 +121,16 @@ def diffs(ctx, shard, nshards):
         a = pick(1)[0]
         bs = pick(40) + [(a[0], False), (a[0] + 1, False), (a[0] - 1, False), (a[0], a[1])]
         bs = [b for b in bs if 0 <= b[0] <= TMAX]
-        lines = [fmt(*b) for b in bs]
-        fa = fmt(*a)
+        drep = rnd.choice(("ymd", "ymd", "ymd", "ywd"))
+
+        def dtxt(e, is60):
+            s_ = fmt(e, is60)
+            if drep == "ywd":
+                nn = R.n_of(int(s_[:4]), int(s_[5:7]), int(s_[8:10]))
+                s_ = "%04d-W%02d-%d" % R.iso(nn) + s_[10:]
+            return s_
+        lines = [dtxt(*b) for b in bs]
+        fa = dtxt(*a)
         try:
             out, _ = run_lines(ctx.build, "ddiff", [fa, "-f", "%rS"], lines)
         except BatchError as e:
@@ -135,7 +143,7 @@ def diffs(ctx, shard, nshards):
             if L.leaps_between(lo, hi) or hi >= I31 or a[1] or b[1]:
                 sub.nt((a, b))
             if o != "%d" % x:
-                tag = "ddiff:%rS:" + ("neg" if x < 0 else "pos")
+                tag = "ddiff:%rS:" + ("" if drep == "ymd" else drep + ":") + ("neg" if x < 0 else "pos")
                 if a[1] or b[1]:
                     tag += ":op60"
                 if abs(b[0] - a[0]) >= I31:
@@ -149,12 +157,12 @@ def diffs(ctx, shard, nshards):
             b = bs[0]
             x = L.tai_of(*b) - L.tai_of(*a)
             if abs(b[0] - a[0]) < I31:
-                r = run_args(ctx.build, "ddiff", [fa, fmt(*b), "-f", "%rS %rS|%rS"])
+                r = run_args(ctx.build, "ddiff", [fa, dtxt(*b), "-f", "%rS %rS|%rS"])
                 got = (r.lines() or [""])[0]
                 want = "%d %d|%d" % (x, abs(x), abs(x))
                 sub.evaluations += 1
                 if got != want:
-                    V.add("ddiff:%rS:repeated", {"a": fa, "b": fmt(*b), "fmt": "%rS %rS|%rS", "exp": want, "kind": "diff"},
+                    V.add("ddiff:%rS:repeated", {"a": fa, "b": dtxt(*b), "fmt": "%rS %rS|%rS", "exp": want, "kind": "diff"},
                           expected=want, actual=got, weight=abs(b[0] - a[0]))
     sub.sample({"cmd": "ddiff 2012-06-30T23:59:59 2012-07-01T00:00:01 -f %rS", "expected": "3"})
     return sub
@@ -177,13 +185,13 @@ def adds(ctx, shard, nshards):
             if rnd.random() < 0.15:
                 t = rnd.randrange(L.t[0], min(TMAX, L.t[-1] + 10 ** 9))
             starts.append((t, False) if rnd.random() > 0.1 else (rnd.choice(rows)[0], True))
-        rep = rnd.choice(("ymd", "ymd", "ymcw"))
+        rep = rnd.choice(("ymd", "ymd", "ymcw", "ywd"))
 
         def txt(e, is60):
             s = fmt(e, is60)
-            if rep == "ymcw":
+            if rep != "ymd":
                 nn = R.n_of(int(s[:4]), int(s[5:7]), int(s[8:10]))
-                s = R.f_ymcw(nn) + s[10:]
+                s = (R.f_ymcw(nn) if rep == "ymcw" else "%04d-W%02d-%d" % R.iso(nn)) + s[10:]
             return s
         ins = [txt(*t) for t in starts]
         try:
